@@ -127,48 +127,50 @@ def skeleton(toks):
     return tuple(sk)
 
 
-_STRUCT_TOKS = [(s, False, 'ins') for s in STRUCT]
+def rendered(toks):
+    """Token list -> list of strings whose concatenation is join(toks) (a token carries its own leading blank)."""
+    return [(' ' + t[0]) if t[1] else t[0] for t in toks]
 
 
-def single_edit_lists(toks):
-    """Every single token-level edit of the token list (as token lists)."""
-    n = len(toks)
+def single_edit_lists(r):
+    """Every single token-level edit of a rendered token list (as rendered token lists)."""
+    n = len(r)
     for i in range(n):                                  # delete
-        yield toks[:i] + toks[i + 1:]
-    for i in range(n + 1):                              # insert a structural token
-        head, tail = toks[:i], toks[i:]
-        for s in _STRUCT_TOKS:
+        yield r[:i] + r[i + 1:]
+    for i in range(n + 1):                              # insert a structural token (no blank around it)
+        head, tail = r[:i], r[i:]
+        for s in STRUCT:
             yield head + [s] + tail
-    for i in range(n - 1):                              # swap adjacent (each keeps its own spacing flag)
-        yield toks[:i] + [toks[i + 1], toks[i]] + toks[i + 2:]
+    for i in range(n - 1):                              # swap adjacent (each keeps its own leading blank)
+        yield r[:i] + [r[i + 1], r[i]] + r[i + 2:]
     for i in range(1, n):                               # truncate
-        yield toks[:i]
+        yield r[:i]
 
 
 def single_edits(line):
     """Sorted distinct texts: the line itself and every single edit of it."""
-    toks = tokenize(line)
     out = {line}
-    for e in single_edit_lists(toks):
-        out.add(join(e))
+    cat = ''.join
+    for e in single_edit_lists(rendered(tokenize(line))):
+        out.add(cat(e))
     return sorted(out)
 
 
 def double_edits(line):
     """Sorted distinct texts reachable by exactly two successive single edits that are neither the line nor a
     single edit of it (those are covered by the single-edit phase)."""
-    toks = tokenize(line)
     first = {line}
     firsts = []
-    for e in single_edit_lists(toks):
-        s = join(e)
+    cat = ''.join
+    for e in single_edit_lists(rendered(tokenize(line))):
+        s = cat(e)
         if s not in first:
             first.add(s)
             firsts.append(e)
     out = set()
     for e in firsts:
         for e2 in single_edit_lists(e):
-            out.add(join(e2))
+            out.add(cat(e2))
     out -= first
     return sorted(out)
 
@@ -373,20 +375,25 @@ def _install_counter():
     _MON.set_events(_TID, 0)
 
 
-# Watchdog without per-case system calls: arming an interval timer four times per case costs more kernel time (timer
-# reprogramming on 16 virtual CPUs) than the parse itself.  A batch of cases runs under one periodic SIGALRM ticker;
-# a guarded section only stores its deadline, and the tick handler raises CaseTimeout once the deadline has passed.
-# Outside a ticker (replay, selftest) the guard falls back to runner.watchdog.
+# Watchdog of the fan-out workers.  Two lessons from running on a shared, overloaded 16-vCPU VM went into it:
+#  * arming a timer per case costs more kernel time than the parse itself -> a batch of cases runs under ONE periodic
+#    ticker and a guarded section merely stores the tick number at which it is overdue (no system call per case);
+#  * wall-clock says nothing when the worker is starved or the VM stalls for seconds -> the ticker is ITIMER_VIRTUAL:
+#    it ticks per TICK seconds of CPU time consumed by this process, which is exactly what a non-terminating parse
+#    burns (the parser does no I/O and never blocks).
+# Outside a ticker (replay, selftest) the guard falls back to runner.watchdog (wall clock).
 
 TICK = 0.5
 _ticker_on = False
-_deadline = None
+_ticks = 0
+_deadline = None        # tick number at which the current guarded section is overdue
 
 
 def _tick(signum, frame):
-    global _deadline
+    global _ticks, _deadline
+    _ticks += 1
     d = _deadline
-    if d is not None and time.monotonic() >= d:
+    if d is not None and _ticks >= d:
         _deadline = None
         raise CaseTimeout()
 
@@ -397,8 +404,8 @@ class ticker:
         self.mine = not _ticker_on
         if self.mine:
             _deadline = None
-            self.old = signal.signal(signal.SIGALRM, _tick)
-            signal.setitimer(signal.ITIMER_REAL, TICK, TICK)
+            self.old = signal.signal(signal.SIGVTALRM, _tick)
+            signal.setitimer(signal.ITIMER_VIRTUAL, TICK, TICK)
             _ticker_on = True
         return self
 
@@ -406,14 +413,15 @@ class ticker:
         global _ticker_on, _deadline
         if self.mine:
             _deadline = None
-            signal.setitimer(signal.ITIMER_REAL, 0)
-            signal.signal(signal.SIGALRM, self.old)
+            signal.setitimer(signal.ITIMER_VIRTUAL, 0)
+            # a tick may still be pending: never fall back to the default action (terminate)
+            signal.signal(signal.SIGVTALRM, self.old if callable(self.old) else signal.SIG_IGN)
             _ticker_on = False
         return False
 
 
 class guard:
-    """with guard(seconds): ...   raises CaseTimeout in the body after seconds (+ at most one TICK)."""
+    """with guard(seconds): ...   raises CaseTimeout in the body after seconds (+ at most one TICK) of CPU time."""
     def __init__(self, seconds):
         self.seconds = seconds
         self.wd = None
@@ -421,7 +429,7 @@ class guard:
     def __enter__(self):
         global _deadline
         if _ticker_on:
-            _deadline = time.monotonic() + self.seconds
+            _deadline = _ticks + int(self.seconds / TICK) + 1
         else:
             self.wd = runner.watchdog(self.seconds)
             self.wd.__enter__()
@@ -1000,7 +1008,7 @@ def run(cfg):
         reps = skeleton_representatives(lines, DOUBLE_MAX_TOKENS)
         for lo, hi in ((0, 6), (7, 8), (9, 10), (11, 12), (13, 14), (15, 16)):
             grp = [(i, r) for i, r in enumerate(reps) if lo <= len(tokenize(r)) <= hi]
-            parts = 1 if hi <= 8 else (2 if hi <= 12 else 6)
+            parts = 1 if hi <= 12 else 2          # every part regenerates the line's edit set and takes its slice
             items = [('double', i, r, p, parts) for i, r in grp for p in range(parts)]
             if items:
                 phase('b:double-edits-%d-%d-tokens' % (lo, hi), items, chunk=1)
@@ -1054,7 +1062,8 @@ def run(cfg):
                    'double_edit_skeletons': len(reps)},
         'parse_outcome_classes': dict(sorted(T['classes'].items())),
         'evaluation_differential': dict(sorted(T['evals'].items())),
-        'budget': '%d*(n+2)^2 counted calls, watchdog %gs per parse' % (BUDGET_FACTOR, PARSE_TIMEOUT),
+        'budget': '%d*(n+2)^2 counted calls per parse, watchdog %gs of CPU time for the two parses of a case'
+                  % (BUDGET_FACTOR, PARSE_TIMEOUT),
         'max_calls_over_n_plus_2_squared': round(T['max_ratio'], 3),
         'max_calls_over_n_plus_2_squared_text': T['max_ratio_text'],
         'max_calls_single_parse': T['max_calls'],
@@ -1065,7 +1074,8 @@ def run(cfg):
     rep.assumptions = [
         'work measure: executions of call instructions in Python code (sys.monitoring CALL events, the 3.12 form of '
         'sys.setprofile call + c_call); work inside one C call (string slicing, str.index, int()) is linear in the '
-        'input and not counted; loops without any call are bounded by the %gs watchdog only' % PARSE_TIMEOUT,
+        'input and not counted; loops without any call are bounded only by the watchdog (%gs of process CPU time, '
+        'ITIMER_VIRTUAL; a hit must repeat on fresh interpreters with three times the allowance)' % PARSE_TIMEOUT,
         'both parses of a case are counted against the budget; evidence reports the counts of the first',
         'a Python RecursionError on deeply nested input is an error raised after bounded work',
         'one parse interpreter and two evaluation interpreters per worker process, reset before every case (start '
@@ -1114,7 +1124,8 @@ def selftest():
         toks = tokenize(ln)
         assert join(toks).split() == ln.split(), ln
     assert [t[0] for t in tokenize('a::0cx,-1.5e-3:~"s""t"')] == ['a', '::', '0cx', ',', '-', '1.5e-3', ':~', '"s""t"']
-    assert len(list(single_edit_lists(tokenize('a+1')))) == 3 + 4 * len(STRUCT) + 2 + 2
+    assert len(list(single_edit_lists(rendered(tokenize('a+1'))))) == 3 + 4 * len(STRUCT) + 2 + 2
+    assert ''.join(rendered(tokenize(' a  + 1'))) == ' a + 1'
     assert 'a+' in single_edits('a+1') and '+a1' in single_edits('a+1') and 'a[+1' in single_edits('a+1')
     assert '+' in double_edits('a+1') and 'a+1' not in double_edits('a+1') and 'a' not in double_edits('a+1')
     assert len(ALPHABET) == len(set(ALPHABET)) == 50
